@@ -202,7 +202,7 @@ func main() {
 			} else {
 				R.Class("xmd/DST <= 255", 1)
 			}
-			if m := runXMD(c.d, c.m, c.o); m != "" {
+			if m := mc.Safe(func() string { return runXMD(c.d, c.m, c.o) }); m != "" {
 				R.Mismatch(fmt.Sprintf("xmd/dst>255=%v/blocks=%d", c.d > 255, (c.o+31)/32), "xmd", m, mc.D{"dst_len": c.d, "msg_len": c.m, "out_len": c.o})
 			}
 		})
@@ -284,7 +284,7 @@ func main() {
 		h := mc.H(j.src)
 		R.State(h)
 		R.NT(h)
-		if m := runUniform(j.src); m != "" {
+		if m := mc.Safe(func() string { return runUniform(j.src) }); m != "" {
 			R.Mismatch(fmt.Sprintf("uniform/%s/len=%d", j.cls, len(j.src)), "uniform", m, mc.D{"src": mc.Hex(j.src), "class": j.cls})
 		}
 	})
@@ -318,7 +318,7 @@ func main() {
 		h := mc.HS("suite", fmt.Sprint(j))
 		R.State(h)
 		R.NT(h)
-		if m := runSuite(j.ro, j.d, j.m); m != "" {
+		if m := mc.Safe(func() string { return runSuite(j.ro, j.d, j.m) }); m != "" {
 			R.Mismatch(fmt.Sprintf("suite/%s/dst>255=%v", name, j.d > 255), "suite", m, mc.D{"ro": j.ro, "dst_len": j.d, "msg_len": j.m})
 		}
 	})
